@@ -69,6 +69,8 @@ ExtraPatterns(m) ==
 \* with the same tick are strictly ordered, in a direction that changes with the class and the hash), sometimes the
 \* sub-resolution code 1 or no offset
 FineCode(i, k, h) == IF h % 5 = 0 THEN (IF h % 2 = 0 THEN 1 ELSE 0) ELSE 2 + ((i + k + h) % 2)
+\* detection confidence of the sound event predictions (Metrics: `conf`), matched or not: default, 1, 1/2, 1/4
+ConfCodes == <<0, 2, 4, 1, 2, 0, 1, 4>>
 MatchKinds == <<"both", "pred", "ann", "both", "pred0", "ann", "ann0", "pred">>
 MkCore(e, rs, task) ==
     LET item(r) == IF ~IsMl(e.kind) THEN SlItem(r, e.C) ELSE MlItem(r, e.C)
@@ -81,6 +83,7 @@ MkCore(e, rs, task) ==
                         f |-> [k \in 1..e.C |->
                                  IF task \in {"cml", "sed"} /\ fineOn /\ sc(i)[k] # 0 /\ sc(i)[k] # U /\ (IsMl(e.kind) \/ SumSeq(sc(i)) < U)
                                  THEN FineCode(i, k, rs[i] + SumSeq(rs)) ELSE 0],
+                        conf |-> IF task \in {"sec", "sed"} THEN ConfCodes[1 + ((rs[i] + 2 * i + SumSeq(rs)) % Len(ConfCodes))] ELSE 0,
                         m |-> IF task = "sed" /\ ~IsNear(e.kind)
                               THEN MatchKinds[1 + ((3 * rs[i] + 5 * i + SumSeq(rs)) % Len(MatchKinds))] ELSE "both"]],
          clips |-> IF task \in {"cc", "cml"} THEN OneEach(e.n)
@@ -182,6 +185,7 @@ LawFineOrders == (Out /\ c.task = "cml" /\ Len(c.items) = 2) =>
             ap == BinAP(<<a.y[k], b.y[k]>>, <<ka, kb>>, c.u * FF)
         IN  (a.y[k] = 1 /\ b.y[k] = 0 /\ a.s[k] = b.s[k] /\ a.f[k] \in {2, 3} /\ b.f[k] \in {0, 2, 3}) =>
                 ((ap.num = ap.den) <=> (a.f[k] > b.f[k]))
+LawConf == \A i \in DOMAIN c.items : c.items[i].conf \in {0, 1, 2, 4}
 LawStyle == c.style \in 0..3
 LawExtrasWellFormed == \A i \in DOMAIN c.extras : c.extras[i].pos \in 0..Len(c.clips) /\ c.extras[i].side \in {"pred", "ann"}
 \* detection: an annotation nothing was predicted for is a miss of the accuracy family unless it is itself unlabelled,
@@ -213,16 +217,16 @@ PlanThorough ==
     << [kind |-> "sl", C |-> 1, n |-> 1, stride |-> 1], [kind |-> "sl", C |-> 1, n |-> 2, stride |-> 1],
        [kind |-> "sl", C |-> 1, n |-> 3, stride |-> 1],
        [kind |-> "sl", C |-> 2, n |-> 1, stride |-> 1], [kind |-> "sl", C |-> 2, n |-> 2, stride |-> 1],
-       [kind |-> "cc", C |-> 2, n |-> 3, stride |-> 4],
+       [kind |-> "cc", C |-> 2, n |-> 3, stride |-> 8],
        [kind |-> "sec", C |-> 2, n |-> 3, stride |-> 8], [kind |-> "sed", C |-> 2, n |-> 3, stride |-> 8],
        [kind |-> "sl", C |-> 3, n |-> 1, stride |-> 1], [kind |-> "sl", C |-> 3, n |-> 2, stride |-> 8],
        [kind |-> "ml", C |-> 1, n |-> 1, stride |-> 1], [kind |-> "ml", C |-> 1, n |-> 2, stride |-> 1],
        [kind |-> "ml", C |-> 1, n |-> 3, stride |-> 1],
-       [kind |-> "ml", C |-> 2, n |-> 1, stride |-> 1], [kind |-> "ml", C |-> 2, n |-> 2, stride |-> 2],
+       [kind |-> "ml", C |-> 2, n |-> 1, stride |-> 1], [kind |-> "ml", C |-> 2, n |-> 2, stride |-> 4],
        [kind |-> "ml", C |-> 2, n |-> 3, stride |-> 64],
        [kind |-> "ml", C |-> 3, n |-> 1, stride |-> 1], [kind |-> "ml", C |-> 3, n |-> 2, stride |-> 256],
-       [kind |-> "mlnear", C |-> 2, n |-> 2, stride |-> 4], [kind |-> "mlnear", C |-> 2, n |-> 3, stride |-> 256],
-       [kind |-> "mlnear", C |-> 3, n |-> 2, stride |-> 512],
-       [kind |-> "sednear", C |-> 2, n |-> 2, stride |-> 1], [kind |-> "sednear", C |-> 2, n |-> 3, stride |-> 16],
-       [kind |-> "sednear", C |-> 3, n |-> 2, stride |-> 16] >>
+       [kind |-> "mlnear", C |-> 2, n |-> 2, stride |-> 8], [kind |-> "mlnear", C |-> 2, n |-> 3, stride |-> 1024],
+       [kind |-> "mlnear", C |-> 3, n |-> 2, stride |-> 2048],
+       [kind |-> "sednear", C |-> 2, n |-> 2, stride |-> 2], [kind |-> "sednear", C |-> 2, n |-> 3, stride |-> 64],
+       [kind |-> "sednear", C |-> 3, n |-> 2, stride |-> 64] >>
 =============================================================================
